@@ -74,6 +74,12 @@ func runC05(c *Ctx) {
 
 	// ---- the eexec operator
 	c.eexecOperator()
+
+	// ---- the bytes peeked for the hex/binary decision are replayed, and the hand-over back to
+	// clear text happens at the right byte, only if the scanner's buffer positions stay inside the
+	// buffer across refills: 0 <= pos <= used <= len(buf) at every function boundary (CLASS-INV,
+	// same verification as C01; a position moved back across a refill breaks it)
+	c.initFactEngine()
 }
 
 // singleByteVar: the expression mentions exactly one variable, of type byte.
